@@ -69,6 +69,7 @@ type pfunc struct {
 	indMemo      map[string][]fact
 	inGoalInd    int
 	inQuot       bool
+	inPhiCond    map[*ssa.Phi]bool
 }
 
 func (pf *pfunc) intern(v *vn) *vn {
